@@ -573,7 +573,7 @@ fn zombie_leader_lane() -> Result<(usize, usize), String> {
     sim.k.world.environ = B(b"A=B\0".to_vec());
     sim.k.world.limits = B(b"Limit\n".to_vec());
     let mut model: Vec<String> = Vec::new();
-    let mut probe = |k: &mut Kernel, path: String| -> String {
+    let probe = |k: &mut Kernel, path: String| -> String {
         match k.vfs_lookup(path.as_bytes()) {
             Ok((c, _, _, _)) => format!("open ok, {} bytes", if c.is_empty() { "0" } else { ">0" }),
             Err(e) => format!("open errno {}", e),
